@@ -78,6 +78,23 @@ class _HarnessBug(BaseException):
     pass
 
 
+class _LearnFailure(Exception):
+    """An undisturbed query failed while learning R: nothing to do with the harness."""
+    def __init__(self, scn, qname, out):
+        Exception.__init__(self, scn, qname, out)
+        self.scn, self.qname, self.out = scn, qname, out
+
+    def item(self):
+        out = self.out
+        return {'id': 'learn:%s' % self.scn, 'fired': [], 'outcomes': [out[1]], 'steps': 1,
+                'obs': 'learn>' + out[1],
+                'viol': [['undisturbed-query-failed:' + out[1],
+                          {'where': 'undisturbed run of scenario %s, query %s' % (self.scn,
+                                                                                  self.qname),
+                           'exception': out[1], 'raised_in': out[2], 'traceback': out[3]}]],
+                'case': {'kind': 'chain', 'scn': self.scn, 'cold': False, 'plans': []}}
+
+
 # ------------------------------------------------------------------------------------------
 # process observation (no reaping)
 
@@ -326,11 +343,22 @@ class Injector:
         self._kill_known_dead(inc)
         b = {'trunc1': 1, 'trunchalf': len(reply) // 2, 'truncm1': len(reply) - 1}[phase]
         rfd, wfd = os.pipe()
-        os.write(wfd, reply[:b])              # replies are far below the pipe capacity
-        os.close(wfd)
+
+        def feed():                           # a reply can exceed the capacity of a pipe
+            try:
+                with open(wfd, 'wb') as w:
+                    w.write(reply[:b])
+            except OSError:
+                pass
+
+        t = threading.Thread(target=feed)
+        t.start()
         self.last_trunc = (b, len(reply))
-        with open(rfd, 'rb') as reader:       # same reader type as Popen's stdout
-            return self.orig_load(reader)
+        try:
+            with open(rfd, 'rb') as reader:   # same reader type as Popen's stdout
+                return self.orig_load(reader)
+        finally:
+            t.join()
 
     # -- observation -----------------------------------------------------------------------
     def helper_count(self, sub):
@@ -490,7 +518,9 @@ def _undisturbed(scn, length):
         out = _query(env, q)
         gc.collect()
         if out[0] != 'ok':
-            raise _HarnessBug('undisturbed query %s failed: %r' % (q, out))
+            del env
+            gc.collect()
+            raise _LearnFailure(scn, q, out)
         rs.append(inj.step_req)
         logs.append([l[1] for l in inj.step_log])
         answers.append(out[1])
@@ -581,10 +611,11 @@ def _exec_plan(env, res, scn, p, ref):
     if failures > len(fired):
         viol.append(('more-failures-than-crashes', {'failures': failures, 'crashes': len(fired),
                                                    'outcomes': outcomes}))
-    if unfired and not viol:
-        raise _HarnessBug('fault(s) %r of plan %s never fired (request counts drifted)'
+    if not fired and not viol:
+        raise _HarnessBug('fault %r of plan %s never fired (request counts drifted)'
                           % (unfired, plan_id(scn, False, p)))
     return {'viol': _dedup(viol), 'fired': fired, 'outcomes': outcomes, 'steps': len(names),
+            'unfired': len(unfired),
             'obs': '%s>%s' % ('+'.join('%s/%s' % (f[2], f[3]) for f in fired), ','.join(outcomes))}
 
 
@@ -992,15 +1023,30 @@ def _init():
     gc.freeze()       # the warm heap (typeshed trees) is not garbage: keep gc.collect() cheap
 
 
+TASK_WATCHDOG_S = 1800
+
+
+def _alarm(signum, frame):
+    raise _Watchdog('task did not finish within %d s' % TASK_WATCHDOG_S)
+
+
 def _work(task):
-    kind = task['kind']
-    if kind == 'chain':
-        return _run_chain(task)
-    if kind == 'hchain':
-        return _run_hchain(task)
-    if kind == 'linear':
-        return _run_linear(task)
-    raise _HarnessBug('unknown task kind %r' % kind)
+    # whole-task watchdog: a harness that blocks (it never should) becomes a harness error
+    signal.signal(signal.SIGALRM, _alarm)
+    signal.alarm(TASK_WATCHDOG_S)
+    try:
+        kind = task['kind']
+        if kind == 'chain':
+            return _run_chain(task)
+        if kind == 'hchain':
+            return _run_hchain(task)
+        if kind == 'linear':
+            return _run_linear(task)
+        raise _HarnessBug('unknown task kind %r' % kind)
+    except _LearnFailure as e:
+        return {'plans': [e.item()]}
+    finally:
+        signal.alarm(0)
 
 
 # ------------------------------------------------------------------------------------------
@@ -1074,12 +1120,14 @@ def _levels(tier, refs):
                 for c in _chunks(plans, 4 if cold else CHAIN)]
 
     if tier == 'quick':
-        levels.append(('1 crash, warm: s0 all 3 queries, s1 zgoto',
-                       chains('s0', warm1('s0', [0, 1, 2])) + chains('s1', warm1('s1', [1]))))
-        levels.append(('1 crash, cold start: s0 all k; s1,s2 handshake+get_sys_path',
-                       chains('s0', cold1('s0'), True) + chains('s1', cold1('s1', [0, 1]), True)
-                       + chains('s2', cold1('s2', [0, 1]), True)))
-        levels.append(('3 consecutive crashes (diagonal): s0 cos', chains('s0', diag3('s0', [0]))))
+        levels.append(('1 crash, warm: s0 all 3 queries (every k x phase)',
+                       chains('s0', warm1('s0', [0, 1, 2]))))
+        levels.append(('1 crash, cold start: s0 handshake, get_sys_path, first query request',
+                       chains('s0', cold1('s0', [0, 1, 2]), True)))
+        R0 = refs['s0']['R'][3]
+        levels.append(('3 consecutive crashes (diagonal): s0 cos, k in {0, 1, last}',
+                       chains('s0', [p for p in diag3('s0', [0])
+                                     if p['faults'][0][0] in (0, 1, R0 - 1)])))
     else:
         levels.append(('1 crash, warm: s0,s1,s2 all queries',
                        chains('s0', warm1('s0', [0, 1, 2])) + chains('s1', warm1('s1', [0, 1, 2]))
@@ -1107,7 +1155,18 @@ def run(ctx):
     # this warm state and must reproduce it
     _state.clear()
     _injector()
-    refs = {scn: _reference(scn) for scn in sorted(SCENARIOS)}
+    scns = ['s0'] if ctx.tier == 'quick' else sorted(SCENARIOS)
+    try:
+        refs = {scn: _reference(scn) for scn in scns}
+    except _LearnFailure as e:
+        it = e.item()
+        for site, det in it['viol']:
+            ctx.violation(site, it['id'], det, {'task': it['case']})
+        ctx.coverage.update({'states': 1, 'transitions': 1, 'evaluations': 1,
+                             'distinct_nontrivial': 0, 'exhaustive': False,
+                             'rule': 'the undisturbed learning run already failed',
+                             'samples': [{'id': it['id'], 'observation': it['obs']}]})
+        return
     gc.collect()
     gc.freeze()
     if _threads():
@@ -1122,7 +1181,7 @@ def run(ctx):
                     seed=ctx.seed, deadline=ctx.deadline, tag='c14')
     ctx.absorb(pres, 'c14')
     states = transitions = 0
-    compared = 0
+    compared = unfired = 0
     obs = set()
     phase_hits, event_hits, outcome_hist, fn_hits = {}, {}, {}, {}
     per_level = {}
@@ -1152,6 +1211,7 @@ def run(ctx):
                     fn_hits[str(f[3])] = fn_hits.get(str(f[3]), 0) + 1
                 for o in it['outcomes']:
                     outcome_hist[o] = outcome_hist.get(o, 0) + 1
+                unfired += it.get('unfired', 0)
             else:
                 obs.add(it['obs'])
             if len(samples) < 8 and (states % 97 == 1):
@@ -1185,8 +1245,10 @@ def run(ctx):
                 'distinct (fired phases with the helper function they hit, per-query outcomes) '
                 'vectors for plans plus distinct helper-count traces for histories',
         'levels_completed': done_levels, 'exhaustive': exhaustive,
-        'requests_per_step_undisturbed': {s: refs[s]['R'] for s in sorted(refs)},
+        'requests_per_query_undisturbed(cold q0, q1, q2, warm q0, q1, q2)':
+            {s: refs[s]['R'] for s in sorted(refs)},
         'phase_hits': phase_hits, 'helper_function_hits': fn_hits, 'event_hits': event_hits,
+        'later_faults_not_fired': unfired,
         'query_outcomes': outcome_hist, 'samples': samples,
         'alphabet': {'phases': PHASES, 'events': ['C', 'Q0-2', 'D0-2', 'G', 'X'],
                      'scenarios': SCENARIOS},
@@ -1194,7 +1256,8 @@ def run(ctx):
     ctx.assumptions += [
         'configuration `stubs`; private SameEnvironment objects only; automatic gc is disabled '
         'and gc.collect() runs after every query so that the number of requests per query (R) '
-        'is a function of the history alone (checked: every armed fault must fire)',
+        'is a function of the history alone (checked: the first fault of every plan must fire, '
+        'later faults that find no request to hit are counted in later_faults_not_fired)',
         'warm plans run back to back (%d per Environment, after the three scenario queries ran '
         'undisturbed), cold plans and every alarming plan on an Environment of their own; '
         'histories likewise (%d per Environment, one continuous reference model; each starts '
